@@ -25,6 +25,24 @@ def gen_date(rng):
     return dt.date(y, m, d)
 
 
+class RuleZone(dt.tzinfo):
+    """A time zone with date-dependent offsets (whole minutes): +1:00 from November to March, +2:00 otherwise."""
+
+    def utcoffset(self, d):
+        if d is None:
+            return None
+        return dt.timedelta(hours=1 if d.month in (11, 12, 1, 2, 3) else 2)
+
+    def dst(self, d):
+        return dt.timedelta(0)
+
+    def tzname(self, d):
+        return "RULE"
+
+    def __repr__(self):
+        return "RuleZone()"
+
+
 def gen_datetime(rng, aware=None):
     d = gen_date(rng)
     us = rng.choice([0, 0, 0, 1, 500000, 999999, rng.randint(0, 999999)])
@@ -38,6 +56,8 @@ def gen_datetime(rng, aware=None):
         if d.year in (1, 9999):
             off = 0
         t = t.replace(tzinfo=dt.timezone(dt.timedelta(minutes=off)))
+        if off == 345 and d.year not in (1, 9999):  # (no extra random draw) a zone whose offset depends on the date
+            t = t.replace(tzinfo=RuleZone())
     return t
 
 
